@@ -94,6 +94,12 @@ func tableCheck(c *harness.Check, pc board.Piece, name string, sq int, occ uint6
 	}
 }
 
+var attackLists = [][]board.Piece{
+	{board.Pawn}, {board.Knight}, {board.Bishop}, {board.Rook}, {board.Queen}, {board.King}, {},
+	board.AllPieces, board.KingQueen, board.KingQueenRookKnightBishop, board.QueenRookBishop, board.QueenRookKnightBishop, board.QueenRookKnightBishopPawn,
+	{board.Rook, board.Bishop}, {board.Pawn, board.Queen}, {board.Queen, board.Queen},
+}
+
 // derivedQueries is the oracle for the position-level queries at one node.
 func derivedQueries(n *Node) string {
 	pos, rp := n.Pos, n.Ref
@@ -107,6 +113,30 @@ func derivedQueries(n *Node) string {
 			}
 			if got := pos.IsDefended(c, sq); got != (len(att) > 0) {
 				return fmt.Sprintf("IsDefended(%v,%v)=%v but attackers of colour %v: %v", c, sq, got, c, att)
+			}
+			// the same question restricted to kinds of pieces: every single kind, the lists the package
+			// exports, the empty list - the answer is "one of the attackers is of a listed kind"
+			var kinds [7]bool
+			for _, a := range att {
+				k := rp.Sq[a]
+				if k < 0 {
+					k = -k
+				}
+				kinds[k] = true
+			}
+			for _, list := range attackLists {
+				want := false
+				for _, pc := range list {
+					if kinds[bridge.RefPiece(pc)] {
+						want = true
+					}
+				}
+				if got := pos.IsAttackedBy(c.Opponent(), sq, list); got != want {
+					return fmt.Sprintf("IsAttackedBy(%v,%v,%v)=%v but the attackers of colour %v are on %v", c.Opponent(), sq, list, got, c, att)
+				}
+				if got := pos.IsDefendedBy(c, sq, list); got != want {
+					return fmt.Sprintf("IsDefendedBy(%v,%v,%v)=%v but the attackers of colour %v are on %v", c, sq, list, got, c, att)
+				}
 			}
 			fc := eval.FindCapture(pos, c, sq)
 			var gotSq, wantSq []int
@@ -171,7 +201,7 @@ func derivedQueries(n *Node) string {
 }
 
 func checkC06(c *harness.Check) {
-	c.Rule = "complete table enumeration: for each of 64 squares every occupancy subset of its rank+file (rook), of its two diagonals (bishop), both halves separately and 2^12 joint subsets nearest the square (queen), own square occupied and empty; every single off-line occupied square added to the empty and the full subset (quick) / to every subset (thorough) to expose cross-talk of a wrong rotation entry; king/knight for all squares; pawn capture/move boards for every single pawn and both colours; derived queries (IsAttacked/IsDefended/IsChecked/IsCheckMate/FindCapture/FindPins K+Q) vs definitions on every node of BFS closures and families incl. the back-rank-check family K+Q/K+R v K with the lone king on the edge (where the mates are), and a two-queens family (two queens of one colour, an enemy rook or bishop on every square, an own knight and pawn on every pair of squares: several targets for one pin query). distinct_nontrivial = distinct (piece, square, attack set) triples"
+	c.Rule = "complete table enumeration: for each of 64 squares every occupancy subset of its rank+file (rook), of its two diagonals (bishop), both halves separately and 2^12 joint subsets nearest the square (queen), own square occupied and empty; every single off-line occupied square added to the empty and the full subset (quick) / to every subset (thorough) to expose cross-talk of a wrong rotation entry; king/knight for all squares; pawn capture/move boards for every single pawn and both colours; derived queries (IsAttacked/IsDefended, IsAttackedBy/IsDefendedBy for every single kind of piece, the exported lists and odd lists, IsChecked/IsCheckMate/FindCapture/FindPins K+Q) vs definitions on every node of BFS closures and families incl. the back-rank-check family K+Q/K+R v K with the lone king on the edge (where the mates are), and a two-queens family (two queens of one colour, an enemy rook or bishop on every square, an own knight and pawn on every pair of squares: several targets for one pin query). distinct_nontrivial = distinct (piece, square, attack set) triples"
 	straight := [][2]int{{1, 0}, {-1, 0}, {0, 1}, {0, -1}}
 	diag := [][2]int{{1, 1}, {1, -1}, {-1, 1}, {-1, -1}}
 	type job struct {
